@@ -140,7 +140,7 @@ def checked_correspondence(ctx):
             S["system"]["state"] = [float(int(v)) for v in S["system"]["state"]]
         S["kw"]["t_sample"] = [0.0]
         system = st.rdsystem_from_dict(S["system"])
-        script = st.RDScript(system, **S["kw"])
+        script = st.RDScript(system, **{k: v for k, v in S["kw"].items() if not k.startswith("__")})
         try:
             traj, draws, _ = engine_io.run_recorded(script, option, kind="shim" if option != "euler" else "plain", with_draws=(option != "euler"), max_iter=8)
         except Exception as ex:  # noqa
